@@ -52,6 +52,10 @@ type CLI struct {
 	Banner    []Tok
 	Noise     []string // echo wrap noise tokens, inserted between echoed bytes ("" list = verbatim echo)
 	NoisePct  int
+	// WrapWidth > 0: the terminal wraps the input line: behind every echoed character that fills a
+	// row (prompt length + characters typed so far a multiple of WrapWidth) it sends " \r" -- also
+	// behind the last character of the input, if that is where the row ends
+	WrapWidth int
 	NL        string // what the device sends for a line break ("\r\n" or "\n")
 	Return    byte
 	Log       []LineRec
@@ -110,6 +114,9 @@ func (d *CLI) Input(b []byte, now time.Duration) []simnet.Seg {
 					delay += d.LineEchoDelay[len(d.Log)]
 				}
 				segs = append(segs, simnet.Seg{B: e, Delay: delay})
+				if d.WrapWidth > 0 && (len(m.Prompt)+len(d.line))%d.WrapWidth == 0 {
+					segs = append(segs, simnet.Seg{B: []byte(" \r")})
+				}
 				if len(d.Noise) > 0 && i+1 < len(b) && b[i+1] != d.Return && d.rng.IntN(100) < d.NoisePct {
 					segs = append(segs, simnet.Seg{B: []byte(d.Noise[d.rng.IntN(len(d.Noise))])})
 				}
